@@ -432,6 +432,12 @@ static std::vector<Scenario> fixed_scenarios()
   mk("text-strings", "rule a { strings: $a = \"abc\" $b = \"hello\" wide ascii nocase $c = \"ab\" fullword xor(1-3) $d = \"canary\" base64 "
                      "condition: any of them and #a > 1 }\n", text);
   mk("base64-wide", "rule a { strings: $d = \"canary\" wide base64 base64wide $e = \"hello\" ascii wide base64wide condition: any of them }\n", text);
+  {
+    // a hex string of 1100 tokens with one wildcard: the atom extractor's work stack (1024 entries) has to grow
+    std::string hx;
+    for (int i = 0; i < 1100; i++) hx += i == 700 ? "?? " : strf("%02X ", 0x41 + i % 23);
+    mk("long-hex-string", "rule a { strings: $h = { " + hx + "} condition: $h }\n", text);
+  }
   mk("hex-and-regexp", "rule a { strings: $h = { 61 62 ?? 64 [1-4] ( 65 | 66 67 ) } $j = { 61 62 63 [300-400] 64 } $r = /ab+c{1,3}(d|e)?/ $q = /h.l+o/i wide $c = /a[a-c]+c|[^x]lo\\b/ "
                        "condition: $h or $j or $r or #q == 1 }\n", text + bytes(350, 'z') + "d");
   mk("conditions", "rule a { strings: $a = \"abc\" $b = \"hello\" condition: for any of them : ($ at 3 or # > 1) and for all i in (1..#a) : "
